@@ -119,6 +119,7 @@ def run(ctx, rep):
     dynamic_table(ctx, rep, F)
     segment_start_congruence(ctx, rep, F, P)
     segment_alignment(ctx, rep, F, P)
+    phdr_order(ctx, rep, F, P)
     rep.assume("addresses, offsets, sizes: runtime quantities, not decided")
 
 
@@ -357,3 +358,41 @@ def segment_alignment(ctx, rep, F, P):
         if "max" in names:
             mx = True
     rep.ob("segment-alignment", "section:max", mx, "the per-segment alignment is raised with max(current, section alignment)", b.file, b.line)
+
+
+def phdr_order(ctx, rep, F, P):
+    """gABI: PT_LOAD entries appear in the program header table in ascending p_vaddr order (glibc sizes a DSO's mapping from the first and the last one).
+    compute_segment_layout sorts the segments with ProgramSegments::order_key(id, start address) = (type rank, start address)."""
+    from mir import place_chain
+    rep.rule("phdr-order", "compute_segment_layout sorts the program headers by ProgramSegments::order_key(id, <segment>.sizes.mem_offset); order_key returns "
+             "(the definition's type rank, that address unchanged): loadable segments are listed in ascending p_vaddr order even when a section is placed below earlier ones")
+    b = F.body("libwild::layout::compute_segment_layout")
+    ok_b = next((x for x in F.all_bodies if x.key.endswith("ProgramSegments::order_key")), None)
+    if b is None or ok_b is None:
+        rep.lost("phdr-order", "layout::compute_segment_layout / ProgramSegments::order_key")
+        return
+    flow = P.flow(b)
+    sorts = [(bi, t) for bi, t in flow.calls() if "sort" in (callee_key(t["f"]) or "").split("::")[-1]]
+    rep.ob("phdr-order", "sorted", len(sorts) >= 1, f"{len(sorts)} sort call(s) in compute_segment_layout", b.file, b.line)
+    key_ok = False
+    detail = "no key closure calling order_key"
+    for c in F.closures_of("libwild::layout::compute_segment_layout"):
+        cf = P.flow(c)
+        for bi, t in cf.calls():
+            if (callee_key(t["f"]) or "").endswith("ProgramSegments::order_key"):
+                chains = [place_chain(cf, a)[0] for a in t["args"][1:]]
+                key_ok = any("mem_offset" in ch for ch in chains)
+                detail = f"order_key called with {chains}"
+    rep.ob("phdr-order", "key-uses-address", key_ok, detail if key_ok else detail + ": the sort key no longer contains the segment's start address - a section placed (--section-start, "
+           "script address) below earlier sections yields PT_LOAD entries out of p_vaddr order", b.file, sorts[0][1]["l"] if sorts else b.line)
+    of = P.flow(ok_b)
+    addr_param = next((i for i in range(1, ok_b.d["argc"] + 1) if ok_b.locals[i].strip() == "u64"), None)
+    comp = None
+    for blk in ok_b.blocks:
+        for st in blk["s"]:
+            if st["k"] == "assign" and st["p"] == [0, []] and st["rv"]["k"] == "agg" and st["rv"]["ak"] == "tuple" and len(st["rv"]["ops"]) == 2:
+                comp = st["rv"]["ops"]
+    ok2 = comp is not None and addr_param is not None and of.origins(comp[1]) == {("param", addr_param)} and \
+        any(x[0] == "call" and (x[1] or "").split("::")[-1] == "order_key" for x in of.origins(comp[0]))
+    rep.ob("phdr-order", "order_key-shape", ok2, "order_key = (definition.order_key(), start address)" if ok2 else
+           "order_key does not return (type rank, the start address it was given)", ok_b.file, ok_b.line)
